@@ -36,7 +36,7 @@ PROPS = {
    'must_reach': ['switch_in_free_mt', 'switch_in_delayed_partial', 'delayed_freeing_observed'],
  },
  'C09': {
-   'families': [('c09_exit', 5, ALL), ('c09_userheap_adopter', 2, ALL)],
+   'families': [('c09_exit', 5, ALL), ('c09_userheap_adopter', 2, ALL), ('c12_bigarena', 0.3, ALL)],
    'runs': {'quick': 1500, 'thorough': 100000},
    'rule': 'non-trivial = at least one segment was abandoned and one reclaimed in the run; distinct = distinct (API hash, hot-switch signature)',
    'nontrivial': lambda r: sw(r, 'segment_abandoned') > 0 and sw(r, 'segment_reclaimed') > 0,
@@ -90,7 +90,7 @@ PROPS = {
    'nontrivial': lambda r: r.get('ops', 0) >= 10,
  },
  'C12': {
-   'families': [('c12_holes', 3, ALL), ('c12_remote', 1, ALL), ('c09_exit', 1, ALL)],
+   'families': [('c12_holes', 3, ALL), ('c12_remote', 1, ALL), ('c09_exit', 1, ALL), ('c12_bigarena', 0.3, ALL)],
    'runs': {'quick': 2400, 'thorough': 150000},
    'rule': 'non-trivial = at least one heap walk was compared block-by-block with the shadow heap; distinct = distinct API result hash (and schedule signature for the multi-threaded families)',
    'nontrivial': lambda r: sw(r, 'visit_checked') > 0,
